@@ -348,6 +348,32 @@ def check_proxy_combine(ctx, DP, h1, h2, merge, retention, comb, k):
 
 
 # ------------------------------------------------------------------ in situ
+def check_defaults(ctx, DP, vals, k):
+    """Defaults of the constructors (part of their signatures): minimise, retain no tags."""
+    case = {"kind": "defaults", "values": list(vals), "k": k}
+    try:
+        if k % 2 == 0:
+            e = DP.Entry(vals[0], ["t"] if k % 4 == 0 else [])
+            e.update(DP.Candidate(vals[1], "a"), DP.Candidate(vals[2], None))
+            read = read_entry(e)
+            want_val = min(vals)
+            if read["value"] != want_val:
+                ctx.viol("C16.history", case, f"Entry({vals[0]}, ...) built without policies, then offered {vals[1:]}: value {read['value']}, the default merge policy keeps the minimum {want_val}")
+            if vals[0] > min(vals[1:]) and read["infos"]:
+                ctx.viol("C16.history", case, f"Entry built without policies retained tags {sorted(read['infos'])} after an improvement: the default retention policy keeps none")
+        else:
+            t = DP.Table((DP.ListDimension(2), DP.DictDimension()))
+            t[1]["k"].update(*[DP.Candidate(v, f"x{i}") for i, v in enumerate(vals)])
+            for msg in judge(read_entry(t[1]["k"]), [(v, f"x{i}") for i, v in enumerate(vals)], True, "NONE"):
+                ctx.viol("C16.history", case, f"cell of a Table built without policies (defaults: minimise, retain nothing): {msg}")
+            for msg in judge(read_entry(t[0]["k"]), [], True, "NONE"):
+                ctx.viol("C16.history", case, f"unwritten cell of a Table built without policies: {msg}")
+        ctx.count("evaluations")
+        ctx.count("mon.defaults")
+    except Exception as exc:  # noqa: BLE001
+        ctx.viol("C16.history", case, f"exception {type(exc).__name__}: {exc}")
+
+
 def check_alias(ctx, DP, h1, extra, merge, retention, k):
     """Aliasing sanitizer: an entry built explicitly from a live ``set`` (the caller's own set, or the tag set read from
     another entry) must own its tags.  After tied candidates are offered to either holder, the other holder and the
@@ -514,6 +540,8 @@ def run(ctx, spec):
             h1 = [(infv, t) for _, t in h1]
         ctx.count("mon.combine_infinite")
         check_combine(ctx, DP, h1, h2, merge, retention, rng.choice(["sum", "sum_plus_tag", "max_notag", "clip", "clip"]))
+    for k in range(20):
+        check_defaults(ctx, DP, [rng.choice(VALUES) for _ in range(3)], k)
     # aliasing: entries built explicitly from a live tag set
     for k in range(240 if ctx.tier == "quick" else 4000):
         merge, retention = ("MIN", "ALL") if k % 3 else rng.choice([("MAX", "ALL"), ("MIN", "ANY"), ("MAX", "ANY")])
@@ -585,6 +613,8 @@ def replay(ctx, case):
     if case["kind"] == "hist":
         hist = [tuple(tuple(x) if isinstance(x, list) else x for x in h) for h in case["history"]]
         check_history(ctx, DP, hist, tuple(case["batches"]), case["merge"], case["retention"], case["container"])
+    elif case["kind"] == "defaults":
+        check_defaults(ctx, DP, case["values"], case["k"])
     elif case["kind"] == "alias":
         check_alias(ctx, DP, [tuple(h) for h in case["h1"]], [tuple(h) for h in case["extra"]], case["merge"], case["retention"], case["k"])
     elif case["kind"] == "grid":
